@@ -12,6 +12,7 @@ import (
 	"io"
 	"log"
 	"os"
+	"sort"
 	"strings"
 
 	"github.com/sarchlab/akita/v4/mem/mem"
@@ -1080,6 +1081,8 @@ type HReq struct {
 	PID       uint64     `json:"pid"`
 	PageSize  uint64     `json:"pagesize"`
 	Top       bool       `json:"top"`
+	Order     []uint64   `json:"order"`  // GPU numbers in the order the driver's map iteration served the groups (observed)
+	ROrder    []uint64   `json:"rorder"` // the same for the second map iteration, which builds the answer to the MMU
 }
 
 type HEvent struct {
@@ -1088,25 +1091,28 @@ type HEvent struct {
 	Rsp string `json:"rsp,omitempty"` // Drain Shoot Mig Restart RdmaRestart
 	G   uint64 `json:"g"`
 	// observation
-	Acc    *bool     `json:"acc,omitempty"`
-	Cmd    *HCmd     `json:"cmd,omitempty"`
-	None   bool      `json:"none,omitempty"`
-	MDst   uint64    `json:"mdst"`
-	MVAddr []uint64  `json:"mvaddr,omitempty"`
-	MTop   bool      `json:"mtop"`
-	MGot   bool      `json:"mgot"`
-	Crash  bool      `json:"crash,omitempty"`
+	Acc    *bool    `json:"acc,omitempty"`
+	Cmd    *HCmd    `json:"cmd,omitempty"`
+	None   bool     `json:"none,omitempty"`
+	MDst   uint64   `json:"mdst"`
+	MVAddr []uint64 `json:"mvaddr,omitempty"`
+	MTop   bool     `json:"mtop"`
+	MGot   bool     `json:"mgot"`
+	Crash  bool     `json:"crash,omitempty"`
 }
 
 type HCase struct {
-	NGPU   int      `json:"ngpu"`
-	Events []HEvent `json:"events"`
-	Viol   string   `json:"viol"`
-	Coq    string   `json:"coq"`
-	Done   int      `json:"done"`
-	Reqs   int      `json:"reqs"`
-	Pages  int      `json:"pages"`
-	Engine bool     `json:"engine"`
+	NGPU       int      `json:"ngpu"`
+	Events     []HEvent `json:"events"`
+	Viol       string   `json:"viol"`
+	Coq        string   `json:"coq"`
+	Done       int      `json:"done"`
+	Reqs       int      `json:"reqs"`
+	Pages      int      `json:"pages"`
+	Engine     bool     `json:"engine"`
+	Checked    int      `json:"checked"`    // requests whose pages were compared after the last page acknowledgement
+	MultiGroup int      `json:"multigroup"` // requests with >= 2 requesting GPUs
+	MultiPage  int      `json:"multipage"`  // groups with >= 2 pages
 }
 
 func (c *HCmd) Coq() string {
@@ -1130,8 +1136,8 @@ func (q *HReq) Coq() string {
 	for i, g := range q.Groups {
 		gs[i] = fmt.Sprintf("(%d, %s)", g[0], vh.CoqNList(g[1:]))
 	}
-	return fmt.Sprintf("(mkMReq %d %s [%s] %d %d %d %s)", q.Src, vh.CoqNList(q.Accessing), strings.Join(gs, "; "),
-		q.Host, q.PID, q.PageSize, vh.CoqBool(q.Top))
+	return fmt.Sprintf("(mkMReq %d %s [%s] %d %d %d %s %s %s)", q.Src, vh.CoqNList(q.Accessing), strings.Join(gs, "; "),
+		q.Host, q.PID, q.PageSize, vh.CoqBool(q.Top), vh.CoqNList(q.Order), vh.CoqNList(q.ROrder))
 }
 
 func (e *HEvent) Coq() string {
@@ -1187,6 +1193,138 @@ type hrunner struct {
 	oldPAddr                                  map[uint64]uint64
 	viol                                      string
 	done                                      int
+	// physical memory of all devices, one entry per physical page; the harness
+	// executes every PageMigrationReqToCP as a page copy when it acknowledges it
+	phys     map[uint64][]byte
+	allVAs   []uint64
+	snap     map[uint64]hsnap // state of every page when the current request could start
+	migTaken []hmig           // page requests taken from the GPU port, not yet acknowledged
+	migSeen  []hmig           // every page request of the current request
+	checked  int
+}
+
+func addOnce(l []uint64, x uint64) []uint64 {
+	for _, o := range l {
+		if o == x {
+			return l
+		}
+	}
+	return append(l, x)
+}
+
+type hsnap struct {
+	paddr, dev uint64
+	data       []byte
+}
+
+type hmig struct {
+	id          string
+	read, write uint64
+	size        uint64
+	g           uint64
+}
+
+// page contents: distinct per virtual page; a page never written holds a pattern of its physical address
+func (r *hrunner) page(pa uint64) []byte {
+	if b, ok := r.phys[pa]; ok {
+		return b
+	}
+	b := make([]byte, 4096)
+	for i := range b {
+		b[i] = genByte(pa>>12+uint64(i), 131, 77)
+	}
+	r.phys[pa] = b
+	return b
+}
+
+func (r *hrunner) initMem(pid uint64, vas []uint64) {
+	r.phys = map[uint64][]byte{}
+	r.allVAs = vas
+	for _, va := range vas {
+		pg, _ := r.pt.Find(vm.PID(pid), va)
+		b := make([]byte, 4096)
+		for i := range b {
+			b[i] = genByte(va>>12*4099+uint64(i), 257, 3)
+		}
+		r.phys[pg.PAddr] = b
+	}
+}
+
+// checkPages: the full observation of one migration request, once every page
+// request was acknowledged (all copies executed, page table updated):
+// every page of the request is mapped to its requesting GPU at a new physical
+// page that holds the old contents; every other page keeps mapping and contents.
+func (r *hrunner) checkPages() {
+	q := r.cur
+	r.checked++
+	var bad []string
+	moved := map[uint64]uint64{}
+	newPA := map[uint64]uint64{}
+	for _, g := range q.Groups {
+		if g[0] < 1 || g[0] > uint64(r.ngpu) {
+			continue
+		}
+		for _, va := range g[1:] {
+			moved[va] = g[0]
+		}
+	}
+	for _, va := range r.allVAs {
+		old := r.snap[va]
+		pg, found := r.pt.Find(vm.PID(q.PID), va)
+		if !found {
+			bad = append(bad, fmt.Sprintf("page 0x%x lost its page-table entry", va))
+			continue
+		}
+		if dst, ok := moved[va]; ok {
+			if pg.DeviceID != dst {
+				bad = append(bad, fmt.Sprintf("page 0x%x requested by GPU %d is mapped to device %d", va, dst, pg.DeviceID))
+			}
+			if pg.PAddr == old.paddr {
+				bad = append(bad, fmt.Sprintf("page 0x%x still at physical 0x%x", va, pg.PAddr))
+			}
+			if o, dup := newPA[pg.PAddr]; dup {
+				bad = append(bad, fmt.Sprintf("pages 0x%x and 0x%x share physical page 0x%x", o, va, pg.PAddr))
+			}
+			newPA[pg.PAddr] = va
+			if pg.VAddr != va || uint64(pg.PID) != q.PID || !pg.Valid {
+				bad = append(bad, fmt.Sprintf("page 0x%x: entry has vaddr 0x%x pid %d valid %v", va, pg.VAddr, pg.PID, pg.Valid))
+			}
+			diff := 0
+			now := r.page(pg.PAddr)
+			for i := range now {
+				if now[i] != old.data[i] {
+					diff++
+				}
+			}
+			if diff > 0 {
+				bad = append(bad, fmt.Sprintf("page 0x%x (now at physical 0x%x on device %d): %d of 4096 bytes differ from the contents before the migration",
+					va, pg.PAddr, pg.DeviceID, diff))
+			}
+		} else {
+			if pg.PAddr != old.paddr || pg.DeviceID != old.dev {
+				bad = append(bad, fmt.Sprintf("page 0x%x is not part of the request, its mapping changed from 0x%x/device %d to 0x%x/device %d",
+					va, old.paddr, old.dev, pg.PAddr, pg.DeviceID))
+			} else if string(r.page(pg.PAddr)) != string(old.data) {
+				bad = append(bad, fmt.Sprintf("page 0x%x is not part of the request, its contents changed", va))
+			}
+		}
+	}
+	ids, tgt := map[string]bool{}, map[uint64]bool{}
+	for _, m := range r.migSeen {
+		if ids[m.id] {
+			bad = append(bad, "the same PageMigrationReqToCP message was sent twice")
+		}
+		if tgt[m.write] {
+			bad = append(bad, fmt.Sprintf("physical page 0x%x is the target of two copies", m.write))
+		}
+		ids[m.id], tgt[m.write] = true, true
+	}
+	if len(r.migSeen) != len(moved) {
+		bad = append(bad, fmt.Sprintf("%d page requests for %d pages", len(r.migSeen), len(moved)))
+	}
+	if len(bad) > 0 {
+		r.flag(fmt.Sprintf("migration request %d (%d groups, %d pages): %s", r.curIdx, len(q.Groups), len(moved), strings.Join(bad, "; ")))
+	}
 }
 
 // startReq: the driver can only begin the next accepted request once the
@@ -1200,6 +1338,13 @@ func (r *hrunner) startReq() {
 	r.cur = q
 	r.nDrainR, r.nShootR, r.nMigR, r.nRestartR, r.nRdma, r.takenMig = 0, 0, 0, 0, 0, 0
 	r.oldPAddr = map[uint64]uint64{}
+	r.snap = map[uint64]hsnap{}
+	r.migTaken, r.migSeen = nil, nil
+	for _, va := range r.allVAs {
+		if pg, found := r.pt.Find(vm.PID(q.PID), va); found {
+			r.snap[va] = hsnap{pg.PAddr, pg.DeviceID, append([]byte{}, r.page(pg.PAddr)...)}
+		}
+	}
 	for _, g := range q.Groups {
 		for _, va := range g[1:] {
 			if pg, found := r.pt.Find(vm.PID(q.PID), va); found {
@@ -1240,6 +1385,18 @@ func (r *hrunner) canonCmd(m sim.Msg) *HCmd {
 		for i, p := range r.pmcs {
 			if p == x.DestinationPMCPort {
 				c.Host = uint64(i + 1)
+			}
+		}
+		mg := hmig{x.ID, x.ToReadFromPhysicalAddress, x.ToWriteToPhysicalAddress, x.PageSize, c.G}
+		r.migTaken = append(r.migTaken, mg)
+		r.migSeen = append(r.migSeen, mg)
+		if r.cur != nil {
+			seen := false
+			for _, o := range r.cur.Order {
+				seen = seen || o == c.G+1
+			}
+			if !seen {
+				r.cur.Order = append(r.cur.Order, c.G+1)
 			}
 		}
 		if pg, ok := r.pt.ReverseLookup(x.ToWriteToPhysicalAddress); ok {
@@ -1335,6 +1492,18 @@ func (r *hrunner) apply(e *HEvent) (crashed bool) {
 		fmt.Sscanf(string(x.Dst), "MMU%d", &e.MDst)
 		e.MVAddr = append([]uint64{}, x.VAddr...)
 		e.MTop = x.RspToTop
+		if r.done < len(r.accepted) {
+			q := r.accepted[r.done]
+			for _, va := range x.VAddr {
+				for _, g := range q.Groups {
+					for _, p := range g[1:] {
+						if p == va {
+							q.ROrder = addOnce(q.ROrder, g[0])
+						}
+					}
+				}
+			}
+		}
 		if r.done >= r.migAllDone {
 			r.flag("the MMU was answered before every page of the request was migrated")
 		}
@@ -1361,6 +1530,15 @@ func (r *hrunner) apply(e *HEvent) (crashed bool) {
 		case "Mig":
 			m = protocol.NewPageMigrationRspToDriver(src, r.gpuPort)
 			r.nMigR++
+			if len(r.migTaken) > 0 {
+				// the command processor / the two PMCs did the copy
+				mg := r.migTaken[0]
+				r.migTaken = r.migTaken[1:]
+				if mg.size == 4096 {
+					data := append([]byte{}, r.page(mg.read)...)
+					copy(r.page(mg.write), data)
+				}
+			}
 			if r.cur != nil {
 				mm := 0
 				for _, g := range r.cur.Groups {
@@ -1368,6 +1546,7 @@ func (r *hrunner) apply(e *HEvent) (crashed bool) {
 				}
 				if r.nMigR == mm {
 					r.migAllDone++
+					r.checkPages()
 				}
 			}
 		case "Restart":
@@ -1409,14 +1588,17 @@ func genHandshake(rng *vh.Rng) HCase {
 	pid := uint64(ctx.VerifPID())
 	// pages per device
 	onDev := map[int][]uint64{}
+	var allVAs []uint64
 	for g := 1; g <= ngpu; g++ {
 		d.SelectGPU(ctx, g)
-		n := uint64(2 + rng.Intn(3))
+		n := uint64(2 + rng.Intn(9))
 		ptr := d.AllocateMemory(ctx, n<<log2)
 		for i := uint64(0); i < n; i++ {
 			onDev[g] = append(onDev[g], uint64(ptr)+i<<log2)
+			allVAs = append(allVAs, uint64(ptr)+i<<log2)
 		}
 	}
+	r.initMem(pid, allVAs)
 	c := HCase{NGPU: ngpu}
 	nreq := 1 + rng.Intn(3)
 	var reqs []*HReq
@@ -1425,14 +1607,46 @@ func genHandshake(rng *vh.Rng) HCase {
 		if len(onDev[host]) == 0 {
 			continue
 		}
-		to := 1 + rng.Intn(ngpu)
-		if to == host {
-			to = 1 + host%ngpu
+		// one request: 1-3 requesting GPUs (all different from the host), 1, 2, 3 or 5 pages each,
+		// the pages of the groups interleaved in the host's buffer
+		var dests []int
+		for g := 1; g <= ngpu; g++ {
+			if g != host {
+				dests = append(dests, g)
+			}
 		}
-		np := 1 + rng.Intn(len(onDev[host]))
-		pages := append([]uint64{}, onDev[host][:np]...)
-		onDev[host] = onDev[host][np:]
-		onDev[to] = append(onDev[to], pages...)
+		for i := len(dests) - 1; i > 0; i-- {
+			k := rng.Intn(i + 1)
+			dests[i], dests[k] = dests[k], dests[i]
+		}
+		ng := 1 + rng.Intn(len(dests))
+		if ng > 3 {
+			ng = 3
+		}
+		dests = dests[:ng]
+		sort.Ints(dests) // GPUReqToVAddrMap is a map; the model lists the groups by ascending GPU number
+		avail := append([]uint64{}, onDev[host]...)
+		for i := len(avail) - 1; i > 0; i-- {
+			k := rng.Intn(i + 1)
+			avail[i], avail[k] = avail[k], avail[i]
+		}
+		var groups [][]uint64
+		np := 0
+		for _, to := range dests {
+			k := []int{1, 2, 3, 5, 2, 3}[rng.Intn(6)]
+			if k > len(avail) {
+				k = len(avail)
+			}
+			if k == 0 {
+				break
+			}
+			pages := append([]uint64{}, avail[:k]...)
+			avail = avail[k:]
+			onDev[to] = append(onDev[to], pages...)
+			groups = append(groups, append([]uint64{uint64(to)}, pages...))
+			np += k
+		}
+		onDev[host] = avail
 		var acc []uint64
 		for g := 1; g <= ngpu; g++ {
 			if rng.Intn(3) > 0 {
@@ -1449,8 +1663,8 @@ func genHandshake(rng *vh.Rng) HCase {
 				acc[i], acc[k] = acc[k], acc[i]
 			}
 		}
-		reqs = append(reqs, &HReq{Src: uint64(50 + j), Accessing: acc, Groups: [][]uint64{append([]uint64{uint64(to)}, pages...)},
-			Host: uint64(host), PID: pid, PageSize: 1 << log2, Top: rng.Bool()})
+		reqs = append(reqs, &HReq{Src: uint64(50 + j), Accessing: acc, Groups: groups,
+			Host: uint64(host), PID: pid, PageSize: 1 << log2, Top: rng.Bool(), Order: []uint64{}, ROrder: []uint64{}})
 		c.Pages += np
 	}
 	c.Reqs = len(reqs)
@@ -1537,6 +1751,22 @@ func genHandshake(rng *vh.Rng) HCase {
 	}
 	c.Done = r.done
 	c.Viol = r.viol
+	c.Checked = r.checked
+	for _, q := range reqs {
+		// groups the driver never got to: any order will do
+		for _, g := range q.Groups {
+			q.Order = addOnce(q.Order, g[0])
+			q.ROrder = addOnce(q.ROrder, g[0])
+		}
+		if len(q.Groups) >= 2 {
+			c.MultiGroup++
+		}
+		for _, g := range q.Groups {
+			if len(g)-1 >= 2 {
+				c.MultiPage++
+			}
+		}
+	}
 	items := make([]string, len(c.Events))
 	for i := range c.Events {
 		items[i] = c.Events[i].Coq()
@@ -1586,7 +1816,8 @@ func genHandshakeEngine(rng *vh.Rng) HCase {
 		}
 	}
 	q := &HReq{Src: 50, Accessing: acc, Groups: [][]uint64{{2, uint64(ptr), uint64(ptr) + 1<<log2}}, Host: 1,
-		PID: uint64(ctx.VerifPID()), PageSize: 1 << log2, Top: true}
+		PID: uint64(ctx.VerifPID()), PageSize: 1 << log2, Top: true, Order: []uint64{}, ROrder: []uint64{}}
+	r.initMem(q.PID, []uint64{uint64(ptr), uint64(ptr) + 1<<log2})
 	c := HCase{NGPU: ngpu, Reqs: 1, Pages: 2, Engine: true}
 	crashed := false
 	run := func(e HEvent) {
@@ -1640,6 +1871,8 @@ func genHandshakeEngine(rng *vh.Rng) HCase {
 	}
 	c.Done = r.done
 	c.Viol = r.viol
+	c.Checked = r.checked
+	c.MultiPage = 1
 	c.Coq = ""
 	return c
 }
